@@ -125,7 +125,11 @@ theorem lenD_mono : ∀ d v r, Action.lenD d v = .ok r → Action.lenD (d + 1) v
 
 
 theorem Action_lenM_ConnTrack' (fs : List V) :
-    Action.lenM (.obj "NXActionConnTrack" fs) = NXActionConnTrack.lenWith (Action.lenD 8) (.obj "NXActionConnTrack" fs) := rfl
+    Action.lenM (.obj "NXActionConnTrack" fs)
+      = NXActionConnTrack.lenWith (Action.lenD Action.encDepth) (.obj "NXActionConnTrack" fs) := by
+  unfold Action.lenM
+  rw [Action.lenD]
+  exact if_pos rfl
 
 /-- a conntrack action with header `h'` whose nested actions are stable with lengths `ls` -/
 theorem ConnTrack_ActQ (d : Slice) (h' a b c e f g : V) (acts : List V) (ls : List UInt16) (hok : LensOK acts ls)
@@ -135,12 +139,12 @@ theorem ConnTrack_ActQ (d : Slice) (h' a b c e f g : V) (acts : List V) (ls : Li
   unfold ActQ
   rw [Action_lenM_ConnTrack']
   simp only [NXActionConnTrack.lenWith, NXActionHeader.lenM, same, Res.bind_ok]
-  cases hm : mapM2 (Action.lenD 8) acts with
+  cases hm : mapM2 (Action.lenD Action.encDepth) acts with
   | err => exact post_err
   | panic => exact post_panic
-  | spin => exact absurd hm (mapM2_ns _ (Action_lenD_ns 8) acts).1
+  | spin => exact absurd hm (mapM2_ns _ (Action_lenD_ns Action.encDepth) acts).1
   | ok r =>
-    have hr := mapM2_LensOK (Action.lenD 8) (fun x r hx => lenD_mono 8 x r hx) acts ls hok r hm
+    have hr := mapM2_LensOK (Action.lenD Action.encDepth) (fun x r hx => lenD_mono Action.encDepth x r hx) acts ls hok r hm
     subst hr
     simp only [Res.bind_ok]
     apply post_bind_ns (NXActionHeader_setLength_ns _ _); intro h'' hset
@@ -287,7 +291,7 @@ theorem InstrWriteMetadata_unmarshal_post (recv : V) (d : Slice) :
   unfold InstrWriteMetadata.unmarshal; post_auto [InstrHeader_unmarshal4_ns]; exact post_ok ⟨_, rfl⟩
 theorem InstrMeter_unmarshal_post (recv : V) (d : Slice) :
     Post (InstrMeter.unmarshal recv d) (fun v => ∃ fs, v = .obj "InstrMeter" fs) := by
-  unfold InstrMeter.unmarshal; post_auto [InstrHeader_unmarshal_ns]; exact post_ok ⟨_, rfl⟩
+  unfold InstrMeter.unmarshal; post_auto [InstrHeader_unmarshal4_ns]; exact post_ok ⟨_, rfl⟩
 
 theorem catchErr_post {α} (r : R α) (dflt : α) (P : α → Prop) (h : Post r P) (h0 : P dflt) :
     Post (catchErr r dflt) (fun p => P p.1) := by
